@@ -15,6 +15,7 @@ import (
 	"sort"
 	"strconv"
 	"strings"
+	"time"
 )
 
 type checkFn func(p *Prog, r *Report)
@@ -73,7 +74,9 @@ func main() {
 		}
 	}
 
+	t0 := time.Now()
 	p, err := Load(repo)
+	loadSeconds = time.Since(t0).Seconds()
 	if err != nil {
 		// fail closed: a tree that cannot be analysed is not a pass
 		for _, k := range ids {
